@@ -195,6 +195,31 @@ CLAIMS = {
     note="Trusted: Go.Check as our reading of the Go spec (accepts the 73 corpus programs real Go accepted, rejects 058 as real Go did); "
          "goast dump; go_pprint.rs not covered.",
     technique="translation validation with a Lean-defined Go type/scope checker on the real Go AST"),
+ "C18": dict(
+    category="proof",
+    text="Lean theorems over Model/Derive.lean, which holds what the generated to_json / to_string return as functions on values (toJson, toString, "
+         "following build_struct_json_body / build_enum_json_body / build_struct_body / build_enum_body / concat_parts), the runtime's json_escape_string "
+         "(jsonQuote), Go's %q (goQuote, parametric in unicode.IsPrint), an RFC 8259 reader (jsonRead), the declarative structure (encode / decode), and the "
+         "generated method bodies as an AST with the derive's binder choice (genJson, genString, scoped). Proved for all definitions, values and strings: "
+         "toJson_wellformed_partial (for every set of non-generic definitions with identifier names, every well-typed value - any nesting, recursion through "
+         "enums - and every string, jsonRead (toJson v) = some (encode v): an object per struct in field order, tag / fields per variant), "
+         "toJson_roundtrip_partial (decoding that structure at the value's type gives the value back), json_escape_total (json_escape_string followed by a JSON "
+         "reader is the identity on all strings), json_escape_is_runtime_table (the character-wise escaper of the model equals the chain of strings.ReplaceAll "
+         "calls regenerated from go/runtime.rs), goQuote_json_safe_partial (what the helper used to be, %q, is JSON exactly on a decidable set of runes; \\a \\v "
+         "\\xNN \\UNNNNNNNN are not, as examples), toString_shape (the generated part list equals the intercalate rendering Name { f: v } / Enum::Variant(v)), "
+         "derive_total (for every definition the generated bodies are well-scoped: binders pairwise distinct, every variable bound, no helper of the regenerated "
+         "dispatch tables shadowed by a binder or by self). Tied to the Rust three ways on every run: (1) translator - Gen/Derive.lean (primitive_to_string_fn, "
+         "call_to_json arms, binder prefix, json_escape_string replacement table) with shape assertions on every literal piece of the four body builders; "
+         "(2) L1 on the derive itself - the impl blocks derive::expand appends to generated programs, serialised, must equal genString / genJson; (3) L1 on "
+         "behaviour - stdout of the real Go AST under Go.Sem and of the real Core under Sem must equal the model's text. Model-free oracle: every printed to_json "
+         "line must parse with Python's json module to the value a declarative Rust writer (serde_json for strings) gives, and with jsonRead to encode; to_string "
+         "must equal a join-style rendering computed in Rust; definitions the derive cannot handle must be rejected with a diagnostic in lower/typer.",
+    design_ref="§5 C18, 'C18 — as built'",
+    note="_partial: a float leaf is modelled by its %g text and assumed to be a JSON number (finite); non-finite floats print +Inf/-Inf/NaN - known finding. "
+         "Go's %g shortest-digit formatting (Sem.showFloat) is validated against Rust's shortest digits on random bit patterns, not proved. Trusted: Lean kernel; "
+         "Go.Sem/Sem as the meaning of the emitted Go (strings.ReplaceAll, fmt verbs); tools/extract.py; harness generator and serialisers; Python's json module. "
+         "Three defects fixed in the repository copy (primitive fields rejected in generated code; field named like a helper captured it; %q is not JSON).",
+    technique="Lean 4 proof (mutual induction over nested values; parser-printer round trip; decide over regenerated tables) + translator + differential correspondence (AST and behaviour) + independent JSON readers"),
 }
 
 NOT_YET = "not claimed yet: the model/theorems/tie for this property are still being built (see DESIGN.md §5)"
